@@ -36,7 +36,7 @@ ASSUMPTIONS = [
 ]
 BUDGET = {
     "quick": {"shards": 16, "examples": 12, "wall": 110},
-    "thorough": {"shards": 16, "examples": 150, "wall": 1200},
+    "thorough": {"shards": 16, "examples": 1500, "wall": 900},
 }
 ENTRY_POINTS = ["python.compile", "python.compile_ekf", "cpp.compile", "cpp.compile_ekf"]
 VISIBLE = {
